@@ -251,6 +251,13 @@ def run(ctx):
     def small_lite(maxpayload):
         t = gen_lite(rng)
         return t[:-1] + (t[-1][:rng.randint(0, maxpayload)],)
+    def lite_ok(make):
+        # an encoder that refuses a well-formed packet is reported by the round-trip oracle; the chunking sections skip such packets
+        for _ in range(200):
+            t = make()
+            if not isinstance(lc.encode(t), Exception): return t
+        raise RuntimeError("the lite encoder refuses every well-formed packet")
+    small_ok = lambda: lite_ok(lambda: small_lite(6))
     # (a) one minimal packet: every partition (2^(n-1)), oracle on all, model on a sample
     for rep in range(2 if quick else 6):
         t = gen_lite(rng, ptype=rng.choice([2, 3, 4]))
@@ -264,12 +271,6 @@ def run(ctx):
     # (b) short streams (<= 64 bytes): every single cut and every pair of cuts
     for rep in range(12 * scale):
         ts = []
-        def small_ok():
-            # (an encoder that refuses a well-formed packet is reported by the round-trip oracle; here such packets are skipped)
-            for _ in range(200):
-                t = small_lite(6)
-                if not isinstance(lc.encode(t), Exception): return t
-            raise RuntimeError("the lite encoder refuses every small well-formed packet")
         while True:
             t = small_ok()
             if sum(len(lc.encode(x)) for x in ts) + len(lc.encode(t)) > 64: break
@@ -285,10 +286,10 @@ def run(ctx):
             chunk_case(ts, tail, [stream[:i], stream[i:j], stream[j:]], "chunk-every-pair", model=(rng.random() < 0.2))
     # (c) long streams: random partitions incl. empty chunks and byte-at-a-time
     for rep in range(150 * scale):
-        ts = [gen_lite(rng) for _ in range(rng.randint(1, 6))]
+        ts = [lite_ok(lambda: gen_lite(rng)) for _ in range(rng.randint(1, 6))]
         ts = [t if len(t[-1]) <= 400 or rng.random() < 0.2 else t[:-1] + (t[-1][:50],) for t in ts]
         data = b"".join(lc.encode(t) for t in ts)
-        tailsrc = lc.encode(gen_lite(rng))
+        tailsrc = lc.encode(lite_ok(lambda: gen_lite(rng)))
         tail = tailsrc[:rng.randrange(len(tailsrc))] if rng.random() < 0.5 else b""
         stream = data + tail
         mode = rep % 4
